@@ -8,7 +8,7 @@ tree), walk the abort-free CFG from a start block while propagating the boolean 
 only the edge a decided switch allows, and report which blocks can still be reached. Atoms that are not assigned, and every
 other condition, stay free (both edges are explored). No code is executed; this is constant propagation along paths."""
 import re
-from ..engine import show, strip
+from ..engine import show, strip, _variants_for
 
 
 class PathEval:
@@ -23,12 +23,17 @@ class PathEval:
         return None
 
     def _stmt(self, st, bb, j, env, assign):
+        if st[0] == "=" and len(st[1]) > 1:
+            env.pop(("v", st[1][0]), None)   # a write into part of the local: its variant is no longer known
+            return
         if st[0] != "=" or len(st[1]) != 1:
             return
         l = st[1][0]
         rv = st[2]
         val = None
         k = rv[0]
+        if k in ("ref", "rawptr") and str(rv[1]).lower() in ("mut",):
+            env.pop(("v", rv[2][0]), None)   # a mutable borrow may change the variant behind our back (e.g. Option::take)
         if k == "use":
             op = rv[1]
             if op[0] == "k" and isinstance(op[1], dict) and isinstance(op[1].get("v"), bool):
@@ -37,15 +42,33 @@ class PathEval:
                 pl = op[1]
                 if len(pl) == 1:
                     val = env.get(pl[0])
+                    if ("v", pl[0]) in env:
+                        env[("v", l)] = env[("v", pl[0])]
+                        env.pop(l, None)
+                        return
                 else:
                     a = self._atom(show(strip(self.fn.flow.rvalue_tree(rv, bb, j))))
                     if a is not None and a in assign:
                         val = assign[a]
+        elif k == "agg" and isinstance(rv[1], dict) and rv[1].get("k") == "adt" and rv[1].get("variant"):
+            # a local built as a known enum variant: remember the variant's discriminant under the key ("v", local)
+            vs = _variants_for(self.fn.facts, rv[1].get("adt"))
+            d = [dv for dv, nm in (vs or {}).items() if nm == rv[1]["variant"]]
+            if len(d) == 1 and isinstance(d[0], int):
+                env[("v", l)] = d[0]
+            else:
+                env.pop(("v", l), None)
+            env.pop(l, None)
+            return
         elif k == "discr":
             # discriminant of an enum-valued atom: the assignment gives the variant's discriminant (an int)
             a = self._atom(show(strip(self.fn.flow.rvalue_tree(rv, bb, j))))
             if a is not None and a in assign and not isinstance(assign[a], bool):
                 env[l] = assign[a]
+                return
+            # discriminant of a local whose variant is known on this path
+            if len(rv[1]) == 1 and ("v", rv[1][0]) in env:
+                env[l] = env[("v", rv[1][0])]
                 return
         elif k == "un" and rv[1] == "Not" and rv[2][0] in ("c", "m") and len(rv[2][1]) == 1:
             v = env.get(rv[2][1][0])
@@ -60,6 +83,7 @@ class PathEval:
             a, b = side(rv[2]), side(rv[3])
             if isinstance(a, bool) and isinstance(b, bool):
                 val = (a == b) if rv[1] == "Eq" else (a != b)
+        env.pop(("v", l), None)
         if isinstance(val, (bool, int)):
             env[l] = val
         else:
@@ -85,38 +109,101 @@ class PathEval:
             if not skip:
                 for j, st in enumerate(blk["s"]):
                     self._stmt(st, bb, j, e, assign)
-            t = blk.get("t") or {}
-            k = t.get("k")
-            nxt = []
-            if k == "goto":
-                nxt = [t["t"]]
-            elif k == "call":
-                d = t.get("d")
-                if d is not None and len(d) == 1:
-                    a = self._atom(show(strip(fn.flow.call_tree(bb, t))))
-                    if a is not None and a in assign:
-                        e[d[0]] = assign[a]
-                    else:
-                        e.pop(d[0], None)
-                if t.get("t") is not None:
-                    nxt = [t["t"]]
-            elif k == "switch":
-                op = t["d"]
-                v = e.get(op[1][0]) if op[0] in ("c", "m") and len(op[1]) == 1 else None
-                if isinstance(v, bool) or isinstance(v, int):
-                    want = (1 if v else 0) if isinstance(v, bool) else v
-                    tgt = [b for val, b in t["arms"] if val == want]
-                    nxt = tgt[:1] if tgt else [t.get("else")]
-                else:
-                    nxt = [b for _, b in t["arms"]] + [t.get("else")]
-            elif k in ("drop", "assert"):
-                nxt = [t.get("t")]
-            elif k == "asm":
-                nxt = list(t.get("ts", []))
+            nxt = self._succ(blk, bb, e, assign)
             for n in nxt:
                 if n is not None and n in live:
                     work.append((n, dict(e), False))
         return visited
+
+    def path_counts(self, weights, end_bb, assign=None, start_bb=0, cap=4):
+        """(min, max) number of weighted blocks passed on the feasible paths from start_bb to end_bb (inclusive), where a path is
+        feasible if every switch on a value known on that path (atoms of `assign`, booleans and enum variants built along the
+        path) takes the matching edge. None if end_bb is not reached. Counts above `cap` are reported as cap."""
+        fn = self.fn
+        live = fn.cfg.live
+        assign = assign or {}
+        seen = set()
+        res = []
+        work = [(start_bb, {}, 0)]
+        steps = 0
+        while work and steps < 200000:
+            steps += 1
+            bb, e, n = work.pop()
+            if bb not in live:
+                continue
+            n = min(cap, n + (1 if bb in weights else 0))
+            key = (bb, frozenset(e.items()), n)
+            if key in seen:
+                continue
+            seen.add(key)
+            blk = fn.blocks[bb]
+            for j, st in enumerate(blk["s"]):
+                self._stmt(st, bb, j, e, assign)
+            if bb == end_bb:
+                res.append(n)
+                continue
+            for nx in self._succ(blk, bb, e, assign):
+                if nx is not None and nx in live:
+                    work.append((nx, dict(e), n))
+        if not res:
+            return None
+        return (min(res), max(res))
+
+    def _succ(self, blk, bb, e, assign):
+        fn = self.fn
+        t = blk.get("t") or {}
+        k = t.get("k")
+        if k == "goto":
+            return [t["t"]]
+        if k == "call":
+            d = t.get("d")
+            if d is not None and len(d) == 1:
+                a = self._atom(show(strip(fn.flow.call_tree(bb, t))))
+                if a is not None and a in assign:
+                    e[d[0]] = assign[a]
+                else:
+                    e.pop(d[0], None)
+            if d is not None:
+                e.pop(("v", d[0]), None)
+                if len(d) == 1:
+                    self._std_enum_call(t, d[0], e)
+            return [t["t"]] if t.get("t") is not None else []
+        if k == "switch":
+            op = t["d"]
+            v = e.get(op[1][0]) if op[0] in ("c", "m") and len(op[1]) == 1 else None
+            if isinstance(v, bool) or isinstance(v, int):
+                want = (1 if v else 0) if isinstance(v, bool) else v
+                tgt = [b for val, b in t["arms"] if val == want]
+                return tgt[:1] if tgt else [t.get("else")]
+            return [b for _, b in t["arms"]] + [t.get("else")]
+        if k in ("drop", "assert"):
+            return [t.get("t")]
+        if k == "asm":
+            return list(t.get("ts", []))
+        return []
+
+    @staticmethod
+    def _std_enum_call(t, d, e):
+        """The two calls the `?` operator desugars to have a result variant that follows from the types alone:
+        `from_residual` builds None / Err; `Try::branch` maps Some/Ok to Continue(0) and None/Err to Break(1)."""
+        f = t.get("f")
+        c = f[1].get("fn") if isinstance(f, list) and f and f[0] == "k" and isinstance(f[1], dict) else None
+        if not c:
+            return
+        head = c.get("recv_head")
+        if c.get("q") == "std::ops::FromResidual::from_residual":
+            if head == "std::option::Option":
+                e[("v", d)] = 0
+            elif head == "std::result::Result":
+                e[("v", d)] = 1
+        elif c.get("q") == "std::ops::Try::branch" and t.get("a"):
+            a = t["a"][0]
+            if isinstance(a, list) and a and a[0] in ("c", "m") and len(a[1]) == 1 and ("v", a[1][0]) in e:
+                v = e[("v", a[1][0])]
+                if head == "std::option::Option":
+                    e[("v", d)] = 0 if v == 1 else 1
+                elif head == "std::result::Result":
+                    e[("v", d)] = 0 if v == 0 else 1
 
     def after_call(self, cs, assign, result=None):
         """Blocks reachable after call site `cs` returned; `result` fixes the call's own boolean result."""
